@@ -9,8 +9,16 @@ import (
 	"goa.design/goa/v3/expr"
 )
 
-// Reset prepares the eval engine for a new design, as the goa command does at start-up.
+var fresh = true
+
+// Reset prepares the eval engine for a new design. The first design of a process is evaluated with the roots exactly as goa's own
+// packages registered them at start-up (what the goa command evaluates with: registration order and dependencies are goa's);
+// later designs of the same process start from a reset engine, the way goa's tests do.
 func Reset() {
+	if fresh {
+		fresh = false
+		return
+	}
 	eval.Reset()
 	expr.Root = new(expr.RootExpr)
 	expr.GeneratedResultTypes = new(expr.ResultTypesRoot)
